@@ -9,6 +9,7 @@ import (
 	"fmt"
 	"go/token"
 	"go/types"
+	"unicode/utf8"
 )
 
 type symString struct {
@@ -115,4 +116,48 @@ func (x *Explorer) convSymString(dst types.Type, v symString) value {
 		}
 	}
 	panic(unsupported("conversion of a byte-array string to " + dst.String()))
+}
+
+// symStringIter implements range over a byte-array string: ASCII bytes stay symbolic (one fork on "< 0x80"),
+// a multi-byte sequence is concretised byte by byte and decoded natively.
+type symStringIter struct {
+	fr *frame
+	s  symString
+	i  int
+}
+
+func (it *symStringIter) next() tuple {
+	if it.i >= len(it.s.bytes) {
+		return []value{false, nil, nil}
+	}
+	xp := it.fr.i.x
+	pos := it.i
+	b0 := it.s.bytes[pos]
+	if c, ok := b0.(uint8); ok && c < utf8.RuneSelf {
+		it.i++
+		return []value{true, pos, int32(c)}
+	}
+	if sb, ok := b0.(sym); ok {
+		ascii := xp.mk("(bvult "+sb.e+" #x80)", sBool)
+		if xp.decide(ascii, "range-string-ascii") {
+			it.i++
+			return []value{true, pos, xp.mk("((_ zero_extend 24) "+sb.e+")", sBV32)}
+		}
+	}
+	// multi-byte: concretise up to 4 bytes and decode
+	var buf []byte
+	for k := pos; k < len(it.s.bytes) && k < pos+4; k++ {
+		switch b := it.s.bytes[k].(type) {
+		case uint8:
+			buf = append(buf, b)
+		case sym:
+			buf = append(buf, byte(xp.concretize(b, "range-string-byte")))
+		}
+		if utf8.FullRune(buf) {
+			break
+		}
+	}
+	r, w := utf8.DecodeRune(buf)
+	it.i += w
+	return []value{true, pos, int32(r)}
 }
